@@ -75,13 +75,16 @@ let order_free = function
   | _ -> true
 
 let known_seen : (string, int) Hashtbl.t = Hashtbl.create 8
+let q0 : q = mkq Z0 (z_of_int 1)
 
 (* judge one observed result: the definition first, then the model *)
-let judge (name : string) (f : agg) (known : string option) (o : obs option) (sp : res option option) (md : res option) : string option =
+(* sl = the float64 error budget of the aggregate over the values it was fed with (Spec/AggSpec.v fl_slack: 0 outside
+   the variance family; second order in 2^-52 max|x| for the two-pass stddev / stddevs / var / vars) *)
+let judge ?(sl : q = q0) (name : string) (f : agg) (known : string option) (o : obs option) (sp : res option option) (md : res option) : string option =
   let ex = exact_agg f in
-  let m_ok = matches_opt ex o md in
+  let m_ok = matches_opt_s ex sl o md in
   match sp with
-  | Some sp when not (matches_opt ex o sp) ->
+  | Some sp when not (matches_opt_s ex sl o sp) ->
       (match known with
        | Some k when m_ok ->
            (* a recorded deviation that the model reproduces exactly: reported for the first 25 cases only, so that
@@ -104,13 +107,14 @@ let handle_direct (name : string) (param : string) (vals : string list) (r1 : st
   let applicable = (not (keeps_null f)) || not (List.exists is_null vs) in
   let sp = if applicable then Some (Some (spec f vs)) else None in
   let known = (match f with AStdDev -> Some "stddev_is_sample" | _ -> None) in
-  match judge name f known (Some o) sp (Some md) with
+  let sl = fl_slack f vs in
+  match judge ~sl name f known (Some o) sp (Some md) with
   | Some v -> v
   | None ->
       (match r2 with
        | Some r2 when order_free f ->
            let (o2, _) = take_obs r2 in
-           if matches (exact_agg f) o2 md then "ok nt" else "chk " ^ name ^ "_perm_invariance"
+           if matches_s (exact_agg f) sl o2 md then "ok nt" else "chk " ^ name ^ "_perm_invariance"
        | _ -> if List.length vs >= 2 then "ok nt" else "ok")
 
 let rec chunks n l =
@@ -214,7 +218,8 @@ let handle_having (n : int) (k : int) (hdr : string list) (hid : string list) (p
                     | _, MExpr when keeps_null f -> Some "expr_null_not_skipped"
                     | _ -> None) in
                 let sp = spec_batch f m (List.map (eval_arg sh) bc) in
-                match judge name f known o (Some sp) (List.nth mrow j) with
+                let sl = fl_slack_batch f m (List.map (eval_arg sh) bc) in
+                match judge ~sl name f known o (Some sp) (List.nth mrow j) with
                 | Some v when v <> "chk stddev_is_sample" ->
                     let f' = (match f with AStdDev -> AStdDevS | _ -> f) in
                     let why = List.find_opt (fun s ->
@@ -289,7 +294,7 @@ let handle_suppressed (n : int) (k : int) (hdr : string list) (cells : string li
                   let known = (match sh with ShAff _ -> Some "inline_agg_arg_dropped" | _ -> None) in
                   let bad = (match o, List.nth exp j with
                       | None, None -> None
-                      | Some o, Some md -> judge name f known (Some o) (Some sp) md
+                      | Some o, Some md -> judge ~sl:(fl_slack_batch f m (List.map (eval_arg sh) bc)) name f known (Some o) (Some sp) md
                       | Some _, None -> Some "chk suppressed_run_unchanged_item_present"
                       | None, Some _ -> Some "chk suppressed_run_changed_item_absent") in
                   match bad with
@@ -331,7 +336,7 @@ let judge_batches (fields : (string * agg * mode) list) (batches : cell list lis
                 | AStdDev, _ -> Some "stddev_is_sample"
                 | _, MExpr when keeps_null f -> Some "expr_null_not_skipped"
                 | _ -> None) in
-            match judge name f known o (Some sp) md with
+            match judge ~sl:(fl_slack_batch f m cells) name f known o (Some sp) md with
             | Some v -> verdict := Some (Printf.sprintf "%s field=%d batch=%d" v j b)
             | None -> ()
           end) batches) fields;
@@ -397,7 +402,7 @@ let handle (toks : string list) : string =
                            | AStdDev, _ -> Some "stddev_is_sample"
                            | _, MExpr when keeps_null f -> Some "expr_null_not_skipped"
                            | _ -> None) in
-                       match judge name f known o (Some (spec_batch f m sc)) (List.nth mds b) with
+                       match judge ~sl:(fl_slack_batch f m sc) name f known o (Some (spec_batch f m sc)) (List.nth mds b) with
                        | Some v -> verdict := Some (Printf.sprintf "%s field=%d batch=%d" v j b)
                        | None -> ()
                      end) scells
@@ -434,7 +439,8 @@ let handle (toks : string list) : string =
                          | _, MExpr when keeps_null f -> Some "expr_null_not_skipped"
                          | _ -> None) in
                      let sp = spec_batch f m (List.map (eval_arg sh) bc) in
-                     match judge name f known o (Some sp) (List.nth (List.nth mds b) j) with
+                     let sl = fl_slack_batch f m (List.map (eval_arg sh) bc) in
+                     match judge ~sl name f known o (Some sp) (List.nth (List.nth mds b) j) with
                      | Some v when v <> "chk stddev_is_sample" ->
                          (* diagnosis: is it the definition applied to the argument of ANOTHER call of the list? *)
                          let other = ref None in
